@@ -172,6 +172,10 @@ func (x *exec) startOpen(p *proc, kill int, torn string) (opened bool, died bool
 	}
 	p.raw = raw
 	p.c = sim.NewControl(fmt.Sprintf("p%d", p.id), x.w.Log)
+	// opening a cache that has to be rebuilt runs the two sub-cache builders side by side; which
+	// of their file creations is "mutation k" of a kill is theirs to race for. The run hash takes
+	// the outcomes of the steps (opened, refused, died, command result), not the storage calls.
+	p.c.Unhashed = true
 	sim.RegisterFSControl(x.gb, p.c)
 	sr := sim.NewSimRepo(raw, p.c, "")
 	if kill >= 0 {
